@@ -5,6 +5,7 @@ package main
 import (
 	"fmt"
 	"go/ast"
+	"go/constant"
 	"go/token"
 	"sort"
 	"strings"
@@ -29,15 +30,48 @@ var storeFuncs = []string{
 
 func storeStripAmp(s string) string { return strings.TrimPrefix(s, "&") }
 
-// elemCalls returns, in source order, the element lists of every
-// codec.WriteElement(s) ("W") / ReadElement(s) ("R") call of a function body.
-func storeElemCalls(fd *ast.FuncDecl) [][2]interface{} {
-	var res [][2]interface{}
-	ast.Inspect(fd.Body, func(n ast.Node) bool {
+// storePkg holds the parsed clientdb package for helper inlining.
+var storePkg []*ast.File
+
+// storeIsListed reports whether a function is one of the (de)serialisers that
+// get their own entry (those are never inlined into their callers).
+func storeIsListed(name string) bool {
+	for _, f := range storeFuncs {
+		if f == name {
+			return true
+		}
+	}
+	return false
+}
+
+// storeWalkCalls visits every call expression of a function body in source
+// order and descends (two levels deep) into same-package helper functions that
+// are not themselves listed serialisers, so that a fact survives the
+// extraction of a code section into a helper.
+func storeWalkCalls(body ast.Node, depth int, visit func(*ast.CallExpr)) {
+	ast.Inspect(body, func(n ast.Node) bool {
 		ce, ok := n.(*ast.CallExpr)
 		if !ok {
 			return true
 		}
+		visit(ce)
+		if id, ok := ce.Fun.(*ast.Ident); ok && depth < 2 && !storeIsListed(id.Name) &&
+			id.Name != "ReadElement" && id.Name != "ReadElements" {
+			if fd := findFunc(storePkg, id.Name); fd != nil && fd.Body != nil {
+				// arguments first (already visited by Inspect below), then the helper body
+				storeWalkCalls(fd.Body, depth+1, visit)
+			}
+		}
+		return true
+	})
+}
+
+// elemCalls returns, in source order, the element lists of every
+// codec.WriteElement(s) ("W") / ReadElement(s) ("R") call of a function body
+// (helpers inlined).
+func storeElemCalls(fd *ast.FuncDecl) [][2]interface{} {
+	var res [][2]interface{}
+	storeWalkCalls(fd.Body, 0, func(ce *ast.CallExpr) {
 		name := exprString(ce.Fun)
 		kind := ""
 		switch name {
@@ -46,58 +80,341 @@ func storeElemCalls(fd *ast.FuncDecl) [][2]interface{} {
 		case "ReadElements", "ReadElement":
 			kind = "R"
 		default:
-			return true
+			return
 		}
 		if len(ce.Args) < 2 {
-			return true
+			return
 		}
 		var args []string
 		for _, a := range ce.Args[1:] {
 			args = append(args, storeStripAmp(exprString(a)))
 		}
 		res = append(res, [2]interface{}{kind, args})
-		return true
 	})
 	return res
 }
 
 // tlvRecords returns (type constant, value variable) of every
-// tlv.MakePrimitiveRecord call of a function body, in source order.
+// tlv.MakePrimitiveRecord call of a function body, in source order (helpers
+// inlined).
 func storeTlvRecords(fd *ast.FuncDecl) [][2]string {
 	var res [][2]string
-	ast.Inspect(fd.Body, func(n ast.Node) bool {
-		ce, ok := n.(*ast.CallExpr)
-		if !ok || exprString(ce.Fun) != "tlv.MakePrimitiveRecord" || len(ce.Args) != 2 {
-			return true
+	storeWalkCalls(fd.Body, 0, func(ce *ast.CallExpr) {
+		if exprString(ce.Fun) != "tlv.MakePrimitiveRecord" || len(ce.Args) != 2 {
+			return
 		}
 		res = append(res, [2]string{exprString(ce.Args[0]), storeStripAmp(exprString(ce.Args[1]))})
-		return true
 	})
 	return res
 }
 
-// emptyStateCases returns the case expressions of the empty clauses of the
-// `switch a.State` statement of a function (the states that carry no LatestTx).
-func storeEmptyStateCases(fd *ast.FuncDecl) ([]string, bool) {
-	var res []string
-	found := false
-	ast.Inspect(fd.Body, func(n ast.Node) bool {
-		sw, ok := n.(*ast.SwitchStmt)
-		if !ok || sw.Tag == nil || exprString(sw.Tag) != "a.State" {
-			return true
+// ---- semantic guard evaluation ----------------------------------------------
+//
+// Which account states skip LatestTx is a SET, however the code spells the
+// decision: a `switch a.State`, an if / else-if chain, negations, or a
+// same-package predicate helper. The extractor finds the (Write|Read)Element
+// call on a.LatestTx, collects the guards on the path to it, and evaluates them
+// for every defined account state.
+
+type storeEnv struct {
+	vals  map[string]int64 // expression text -> value (the state variable, helper params)
+	acct  *constEnv
+	depth int
+}
+
+func (e *storeEnv) intVal(x ast.Expr) (int64, bool) {
+	switch t := x.(type) {
+	case *ast.ParenExpr:
+		return e.intVal(t.X)
+	case *ast.CallExpr: // conversion T(x)
+		if len(t.Args) == 1 {
+			return e.intVal(t.Args[0])
 		}
-		found = true
-		for _, st := range sw.Body.List {
-			cc := st.(*ast.CaseClause)
-			if cc.List != nil && len(cc.Body) == 0 {
-				for _, e := range cc.List {
-					res = append(res, exprString(e))
+	}
+	s := exprString(x)
+	if v, ok := e.vals[s]; ok {
+		return v, true
+	}
+	name := strings.TrimPrefix(s, "account.")
+	if v, ok := e.acct.get(name); ok {
+		if i, ok2 := constant.Int64Val(constant.ToInt(v)); ok2 {
+			return i, true
+		}
+	}
+	if bl, ok := x.(*ast.BasicLit); ok {
+		v := constant.MakeFromLiteral(bl.Value, bl.Kind, 0)
+		if i, ok2 := constant.Int64Val(constant.ToInt(v)); ok2 {
+			return i, true
+		}
+	}
+	return 0, false
+}
+
+func (e *storeEnv) boolVal(x ast.Expr) (bool, bool) {
+	switch t := x.(type) {
+	case *ast.ParenExpr:
+		return e.boolVal(t.X)
+	case *ast.UnaryExpr:
+		if t.Op == token.NOT {
+			v, ok := e.boolVal(t.X)
+			return !v, ok
+		}
+	case *ast.BinaryExpr:
+		switch t.Op {
+		case token.LAND, token.LOR:
+			a, ok1 := e.boolVal(t.X)
+			b, ok2 := e.boolVal(t.Y)
+			if t.Op == token.LAND {
+				return a && b, ok1 && ok2
+			}
+			return a || b, ok1 && ok2
+		case token.EQL, token.NEQ, token.LSS, token.LEQ, token.GTR, token.GEQ:
+			a, ok1 := e.intVal(t.X)
+			b, ok2 := e.intVal(t.Y)
+			if !ok1 || !ok2 {
+				return false, false
+			}
+			switch t.Op {
+			case token.EQL:
+				return a == b, true
+			case token.NEQ:
+				return a != b, true
+			case token.LSS:
+				return a < b, true
+			case token.LEQ:
+				return a <= b, true
+			case token.GTR:
+				return a > b, true
+			default:
+				return a >= b, true
+			}
+		}
+	case *ast.CallExpr:
+		// same-package predicate helper: `return <expr>` or a switch/if returning literals
+		id, ok := t.Fun.(*ast.Ident)
+		if !ok || e.depth > 2 {
+			return false, false
+		}
+		fd := findFunc(storePkg, id.Name)
+		if fd == nil || fd.Body == nil || fd.Type.Params == nil {
+			return false, false
+		}
+		inner := &storeEnv{vals: map[string]int64{}, acct: e.acct, depth: e.depth + 1}
+		i := 0
+		for _, f := range fd.Type.Params.List {
+			for _, n := range f.Names {
+				if i < len(t.Args) {
+					if v, ok := e.intVal(t.Args[i]); ok {
+						inner.vals[n.Name] = v
+					}
+				}
+				i++
+			}
+		}
+		return inner.evalReturn(fd.Body.List)
+	case *ast.Ident:
+		if t.Name == "true" {
+			return true, true
+		}
+		if t.Name == "false" {
+			return false, true
+		}
+	}
+	return false, false
+}
+
+// evalReturn evaluates a predicate body made of returns, ifs and switches.
+func (e *storeEnv) evalReturn(stmts []ast.Stmt) (bool, bool) {
+	for _, st := range stmts {
+		switch t := st.(type) {
+		case *ast.ReturnStmt:
+			if len(t.Results) == 1 {
+				return e.boolVal(t.Results[0])
+			}
+			return false, false
+		case *ast.IfStmt:
+			c, ok := e.boolVal(t.Cond)
+			if !ok {
+				return false, false
+			}
+			if c {
+				if v, ok := e.evalReturn(t.Body.List); ok {
+					return v, true
+				}
+			} else if t.Else != nil {
+				if blk, ok := t.Else.(*ast.BlockStmt); ok {
+					if v, ok := e.evalReturn(blk.List); ok {
+						return v, true
+					}
+				} else if v, ok := e.evalReturn([]ast.Stmt{t.Else}); ok {
+					return v, true
+				}
+			}
+		case *ast.SwitchStmt:
+			cc, ok := e.pickClause(t)
+			if !ok {
+				return false, false
+			}
+			if cc != nil {
+				if v, ok := e.evalReturn(cc.Body); ok {
+					return v, true
 				}
 			}
 		}
+	}
+	return false, false
+}
+
+// pickClause selects the clause a switch executes under the environment.
+func (e *storeEnv) pickClause(sw *ast.SwitchStmt) (*ast.CaseClause, bool) {
+	var def *ast.CaseClause
+	for _, st := range sw.Body.List {
+		cc := st.(*ast.CaseClause)
+		if cc.List == nil {
+			def = cc
+			continue
+		}
+		for _, x := range cc.List {
+			if sw.Tag != nil {
+				a, ok1 := e.intVal(sw.Tag)
+				b, ok2 := e.intVal(x)
+				if !ok1 || !ok2 {
+					return nil, false
+				}
+				if a == b {
+					return cc, true
+				}
+			} else {
+				v, ok := e.boolVal(x)
+				if !ok {
+					return nil, false
+				}
+				if v {
+					return cc, true
+				}
+			}
+		}
+	}
+	return def, true
+}
+
+// storeReaches decides whether `target` is executed inside stmts under env;
+// found=false when the target is not in this subtree.
+func (e *storeEnv) reaches(n ast.Node, target ast.Node) (found, runs, ok bool) {
+	if n == nil {
+		return false, false, true
+	}
+	if n == target {
+		return true, true, true
+	}
+	contains := func(m ast.Node) bool {
+		return m != nil && m.Pos() <= target.Pos() && target.End() <= m.End()
+	}
+	if !contains(n) {
+		return false, false, true
+	}
+	switch t := n.(type) {
+	case *ast.IfStmt:
+		if contains(t.Init) {
+			return e.reaches(t.Init, target)
+		}
+		if contains(t.Cond) {
+			return true, true, true
+		}
+		c, okc := e.boolVal(t.Cond)
+		if contains(t.Body) {
+			if !okc {
+				// a guard that does not depend on the state (e.g. `err != nil` wrappers
+				// never contain the call in their body in this code) cannot be decided
+				return true, false, false
+			}
+			if !c {
+				return true, false, true
+			}
+			return e.reaches(t.Body, target)
+		}
+		if contains(t.Else) {
+			if !okc {
+				return true, false, false
+			}
+			if c {
+				return true, false, true
+			}
+			return e.reaches(t.Else, target)
+		}
+	case *ast.SwitchStmt:
+		for _, st := range t.Body.List {
+			cc := st.(*ast.CaseClause)
+			if contains(cc) {
+				pick, okp := e.pickClause(t)
+				if !okp {
+					return true, false, false
+				}
+				if pick != cc {
+					return true, false, true
+				}
+				for _, b := range cc.Body {
+					if contains(b) {
+						return e.reaches(b, target)
+					}
+				}
+			}
+		}
+	}
+	// generic: descend into the child that contains the target
+	var res [3]bool
+	res[2] = true
+	done := false
+	ast.Inspect(n, func(m ast.Node) bool {
+		if done || m == nil || m == n {
+			return !done
+		}
+		if contains(m) {
+			f, r, o := e.reaches(m, target)
+			res = [3]bool{f, r, o}
+			done = true
+		}
 		return false
 	})
-	return res, found
+	if !done {
+		return true, true, true
+	}
+	return res[0], res[1], res[2]
+}
+
+// storeNoLatestTxStates returns the defined account states for which the
+// LatestTx element call of the function is NOT executed.
+func storeNoLatestTxStates(fd *ast.FuncDecl, acct *constEnv, states [][2]string) ([][2]string, bool) {
+	var target *ast.CallExpr
+	ast.Inspect(fd.Body, func(n ast.Node) bool {
+		ce, ok := n.(*ast.CallExpr)
+		if !ok || target != nil {
+			return true
+		}
+		name := exprString(ce.Fun)
+		if (name == "codec.WriteElement" || name == "ReadElement" || name == "codec.WriteElements" ||
+			name == "ReadElements") && len(ce.Args) == 2 && storeStripAmp(exprString(ce.Args[1])) == "a.LatestTx" {
+			target = ce
+		}
+		return true
+	})
+	if target == nil {
+		return nil, false
+	}
+	var res [][2]string
+	for _, st := range states {
+		var v int64
+		fmt.Sscan(st[1], &v)
+		env := &storeEnv{vals: map[string]int64{"a.State": v}, acct: acct}
+		_, runs, ok := env.reaches(fd.Body, target)
+		if !ok {
+			return nil, false
+		}
+		if !runs {
+			res = append(res, st)
+		}
+	}
+	return res, true
 }
 
 // typedConsts lists the constants declared with the given named type.
@@ -152,6 +469,7 @@ func storeGenFacts() {
 		"numbers and record lists, state tables; read from clientdb/*.go, account/, order/.")
 	l.p("namespace Pool.Gen.Store")
 	files := pkgFiles("clientdb")
+	storePkg = files
 	cdb := newConstEnv(files)
 	acctFiles := pkgFiles("account")
 	acct := newConstEnv(acctFiles)
@@ -213,22 +531,18 @@ func storeGenFacts() {
 	l.p("def tlvTypes : List (String × Nat) := %s", storeLeanPairs(typeNames, true))
 	l.p("def accountStateVersionedMask : Nat := %s", intConst(cdb, "clientdb", "accountStateVersionedMask"))
 
-	// 3. states without LatestTx
+	// 3. states without LatestTx: evaluated semantically for every defined account state
+	acctStates := storeTypedConsts(acctFiles, acct, "account", "State")
 	for _, fn := range []string{"serializeAccount", "deserializeAccount"} {
 		fd := findFunc(files, fn)
 		if fd == nil {
 			continue
 		}
-		cases, ok := storeEmptyStateCases(fd)
+		ps, ok := storeNoLatestTxStates(fd, acct, acctStates)
 		if !ok {
-			fail("clientdb.%s: `switch a.State` not found", fn)
+			fail("clientdb.%s: cannot decide for which states a.LatestTx is (de)serialised", fn)
 		}
-		var ps [][2]string
-		for _, c := range cases {
-			name := strings.TrimPrefix(c, "account.")
-			ps = append(ps, [2]string{name, intConst(acct, "account", name)})
-		}
-		l.p("/-- states in the empty `case` of `switch a.State` in %s (no LatestTx stored) -/", fn)
+		l.p("/-- defined account states for which %s does not touch LatestTx (guards evaluated per state) -/", fn)
 		l.p("def noLatestTx_%s : List (String × Nat) := %s", fn, storeLeanPairs(ps, true))
 	}
 
@@ -274,6 +588,12 @@ func storeGenFacts() {
 				if x.Init != nil {
 					if as, ok := x.Init.(*ast.AssignStmt); ok && len(as.Rhs) == 1 {
 						g = exprString(as.Rhs[0]) + "; " + g
+						// `if _, ok := <order>.(*order.Bid); ok` – whatever the variables are called
+						if ta, ok := as.Rhs[0].(*ast.TypeAssertExpr); ok && ta.Type != nil &&
+							exprString(ta.Type) == "*order.Bid" && len(as.Lhs) == 2 &&
+							exprString(as.Lhs[1]) == exprString(x.Cond) {
+							g = "is-bid"
+						}
 					}
 				}
 				inner := append(append([]string{}, guards...), g)
